@@ -11,7 +11,7 @@
 (***************************************************************************)
 EXTENDS Partial, ExprUniverse, Json, IOUtils, TLC
 
-CONSTANTS UseDepth2, Stride, LoopStride
+CONSTANTS UseDepth2, Stride, LoopStride, LeakStride
 
 Exprs == IF UseDepth2 THEN Depth1 \o Depth2 ELSE Depth1
 
@@ -79,17 +79,43 @@ LoopPolicy(i) ==        \* i in 0 .. LoopCount - 1
       conds |-> << [kind |-> kp[1], body |-> CondBodies[b1]], [kind |-> kp[2], body |-> CondBodies[b2]],
                    [kind |-> kp[3], body |-> CondBodies[b3]] >>]
 
+\* ---------------------------------------------------------------- literals and branches over partly known collections
+\* The context holds an unknown two levels down ({r: {a: ?x}, s: [?x], k: 1}).  `context.r` and `context.s` evaluate to
+\* collections that still hold the placeholder; `context.r.a` is the unknown itself; `context.k` is known.  Every
+\* ordered pair of those as the members of a set literal, the fields of a record literal and the branches of an
+\* if (condition undecided / decided either way), each consumed by an operator that looks inside: whatever the
+\* residual keeps must still mean the same under every completion.
+LeakEnv == [BaseEnv EXCEPT !.c = VRec([r |-> VRec([a |-> Unk("x")]), s |-> [k |-> "set", els |-> <<Unk("x")>>], k |-> VInt(1)])]
+LeakKids == << Acc(CVar, "r"), Acc(Acc(CVar, "r"), "a"), Acc(CVar, "s"), CK, L1, V(VRec([a |-> VInt(1)])) >>
+LeakConds == << Bin("eq", Acc(Acc(CVar, "r"), "a"), L1), Bin("eq", CK, L1), Bin("eq", CK, L2), Bin("eq", Acc(Acc(CVar, "r"), "a"), V(VInt(7))) >>
+A1 == V(VRec([a |-> VInt(1)]))
+LeakUses(e) == << Bin("contains", e, A1), Bin("contains", e, L1), Bin("eq", Acc(e, "a"), L1), Bin("eq", Acc(Acc(e, "p"), "a"), L1),
+                  Bin("eq", Acc(e, "q"), L1), Has(e, "a"), Bin("containsAny", e, SetE(<<L1, A1>>)), Bin("eq", e, SetE(<<A1, L1>>)),
+                  Bin("eq", e, A1), Un("isEmpty", e) >>
+LeakExprs ==
+  Flat([i \in DOMAIN LeakKids |-> Flat([j \in DOMAIN LeakKids |->
+     LeakUses(SetE(<<LeakKids[i], LeakKids[j]>>))
+     \o LeakUses(RecE(<<[key |-> "p", val |-> LeakKids[i]], [key |-> "q", val |-> LeakKids[j]]>>))
+     \o Flat([c \in DOMAIN LeakConds |-> LeakUses(If(LeakConds[c], LeakKids[i], LeakKids[j]))])])])
+LeakPolicy(i) ==        \* i in 1 .. 2 * Len(LeakExprs)
+  LET e == LeakExprs[((i - 1) % Len(LeakExprs)) + 1] IN
+  [effect |-> IF i <= Len(LeakExprs) THEN "permit" ELSE "forbid", annos |-> <<>>, principal |-> ScopeAll, action |-> ScopeAll,
+   resource |-> ScopeAll, conds |-> <<[kind |-> "when", body |-> e]>>]
+NLeak == 2 * Len(LeakExprs)
+
 VARIABLES idx, sh, done
 vars == <<idx, sh, done>>
 \* idx > 0: expression universe policy idx under shape sh; idx <= 0: loop policy -idx under loop shape sh
 Init == /\ done = FALSE
         /\ \/ idx \in { i \in DOMAIN Exprs : i % Stride = 0 } /\ sh \in DOMAIN Shapes
            \/ idx \in { -i : i \in { j \in 0..(LoopCount - 1) : j % LoopStride = 0 } } /\ sh \in DOMAIN LoopShapes
+           \/ idx \in { -(LoopCount + i) : i \in { j \in 1..NLeak : j % LeakStride = 0 } } /\ sh = 1
 Next == ~done /\ done' = TRUE /\ UNCHANGED <<idx, sh>>
 
 Emit ==
   done =>
     Serialize(ToJson(IF idx > 0 THEN [op |-> "partial", policy |-> PolicyOf(idx), penv |-> Shapes[sh]]
-                     ELSE [op |-> "partial", policy |-> LoopPolicy(-idx), penv |-> LoopShapes[sh]]) \o "\n", "cases.ndjson",
+                     ELSE IF -idx < LoopCount THEN [op |-> "partial", policy |-> LoopPolicy(-idx), penv |-> LoopShapes[sh]]
+                     ELSE [op |-> "partial", policy |-> LeakPolicy(-idx - LoopCount), penv |-> LeakEnv]) \o "\n", "cases.ndjson",
               [format |-> "TXT", charset |-> "UTF-8", openOptions |-> <<"WRITE", "CREATE", "APPEND">>]).exitValue = 0
 =============================================================================
